@@ -192,6 +192,7 @@ structure Fresh (s sN : State) (N : Rep) : Prop where
   held : ∀ r R, sN.reps r = some R → (∃ w, repOf sN w = some r) ∨ r = s.nextRep
   self : sN.reps s.nextRep = some N
   par : N.parent = none
+  cbs : N.cbs = []
   orph : ∀ w, repOf sN w ≠ some s.nextRep
   repOf : ∀ w, repOf sN w = repOf s w
   aliveS : ∀ w, (sN.slots w).isSome = (s.slots w).isSome
@@ -202,7 +203,7 @@ structure Fresh (s sN : State) (N : Rep) : Prop where
 theorem fresh_allocBind {s : State} (hw : WF s) (c : Bool) {f : Fun} (hf : FunOk s f) :
     Fresh s (allocBind c f s) ⟨c, none, some f, []⟩ := by
   obtain ⟨h1, h2, h3, h4, h5⟩ := allocBind_pre hw c hf
-  refine ⟨h1, h2, h3, h4, rfl, h5, repOf_allocBind c f s, by intro w; rw [slots_allocBind], ?_, ?_⟩
+  refine ⟨h1, h2, h3, h4, rfl, rfl, h5, repOf_allocBind c f s, by intro w; rw [slots_allocBind], ?_, ?_⟩
   · intro x X hX
     exact allocBind_old c f hX (Nat.ne_of_lt (hw.inv.repBound x X hX))
   · intro x X' hX' hx
@@ -212,7 +213,7 @@ theorem fresh_allocNoFn {s : State} (hw : WF s) (c : Bool) :
     Fresh s (allocRep ⟨c, none, none, []⟩ s) ⟨c, none, none, []⟩ := by
   have h := hw.inv
   have horph := orphan_next h
-  refine ⟨by inv_auto h, ?_, ?_, by simp [reps_allocRep], rfl, ?_, fun _ => rfl, fun _ => rfl, ?_, ?_⟩
+  refine ⟨by inv_auto h, ?_, ?_, by simp [reps_allocRep], rfl, rfl, ?_, fun _ => rfl, fun _ => rfl, ?_, ?_⟩
   · have := hw.idle; unfold Idle at *; st_simp; exact this
   · intro r R hR
     rw [reps_allocRep] at hR
@@ -247,7 +248,7 @@ theorem fresh_cloneRep {s : State} (hw : WF s) {r : Nat} {R : Rep} (hR : s.reps 
 theorem fresh_modSlot_blocked {s sN : State} {N : Rep} (h : Fresh s sN N) (d : Nat) (b : Bool) :
     Fresh s (sN.modSlot d fun D => { D with blocked := b }) N := by
   have hi := h.inv
-  refine ⟨by inv_auto hi, ?_, ?_, ?_, h.par, ?_, ?_, ?_, ?_, ?_⟩
+  refine ⟨by inv_auto hi, ?_, ?_, ?_, h.par, h.cbs, ?_, ?_, ?_, ?_, ?_⟩
   · have := h.idle; unfold Idle at *; st_simp; exact this
   · have := h.held; st_simp; exact this
   · have := h.self; st_simp; exact this
@@ -259,11 +260,41 @@ theorem fresh_modSlot_blocked {s sN : State} {N : Rep} (h : Fresh s sN N) (d : N
   · have := h.old; st_simp; exact this
   · have := h.alive; st_simp; exact this
 
+/-- a state whose only unstored representation carries no registration satisfies the strong invariant -/
+theorem invS_of_held_except {s : State} (hI : Inv s) {n : Nat} {N : Rep}
+    (hheld : ∀ r R, s.reps r = some R → (∃ w, repOf s w = some r) ∨ r = n)
+    (hn : s.reps n = some N) (hnc : N.cbs = []) : InvS s where
+  repAlive := hI.repAlive
+  repUniq := hI.repUniq
+  connReg := fun c v hc => by
+    obtain ⟨r, R, hR, hm, hor⟩ := hI.connReg c v hc
+    rcases hor with hor | hor
+    · exact ⟨r, R, hor, hR, hm⟩
+    · rcases hheld r R hR with ⟨w, hw⟩ | hrn
+      · exact absurd hw (hor w)
+      · subst hrn; rw [hn] at hR; cases hR; rw [hnc] at hm; simp at hm
+  cbsConn := fun r R c hR hm => by
+    obtain ⟨v, hv, hor⟩ := hI.cbsConn r R c hR hm
+    rcases hor with hor | hor
+    · exact ⟨v, hv, hor⟩
+    · rcases hheld r R hR with ⟨w, hw⟩ | hrn
+      · exact absurd hw (hor w)
+      · subst hrn; rw [hn] at hR; cases hR; rw [hnc] at hm; simp at hm
+  cbsNodup := hI.cbsNodup
+  parentOk := hI.parentOk
+  trkReg := hI.trkReg
+  trkEnt := hI.trkEnt
+  trkNodup := hI.trkNodup
+  refOk := hI.refOk
+  ownOk := hI.ownOk
+  repBound := hI.repBound
+
 theorem wf_adoptSet {s : State} (hI : Inv s) (hidle : Idle s) {v n : Nat} {N : Rep} (b : Bool)
     (hheld : ∀ r R, s.reps r = some R → (∃ w, repOf s w = some r) ∨ r = n)
-    (hn : s.reps n = some N) (hnp : N.parent = none) (horph : ∀ w, repOf s w ≠ some n)
+    (hn : s.reps n = some N) (hnp : N.parent = none) (hnc : N.cbs = []) (horph : ∀ w, repOf s w ≠ some n)
     (hv : s.slots v = none) : WF (s.setSlot v (some ⟨some n, b⟩)) := by
-  refine ⟨by inv_auto hI with [repOf_eq], ?_, ?_⟩
+  have h := invS_of_held_except hI hheld hn hnc
+  refine ⟨InvS.inv (by invs_auto h with [repOf_eq]), ?_, ?_⟩
   · unfold Idle at *; st_simp; exact hidle
   · unfold Held; intro r R hR; st_simp
     rcases hheld r R hR with ⟨w, hw⟩ | rfl
@@ -272,7 +303,7 @@ theorem wf_adoptSet {s : State} (hI : Inv s) (hidle : Idle s) {v n : Nat} {N : R
 
 theorem wf_adopt_fresh {s sN : State} {N : Rep} (h : Fresh s sN N) {v : Nat} (b : Bool)
     (hv : s.slots v = none) : WF (sN.setSlot v (some ⟨some s.nextRep, b⟩)) := by
-  refine wf_adoptSet h.inv h.idle b h.held h.self h.par h.orph ?_
+  refine wf_adoptSet h.inv h.idle b h.held h.self h.par h.cbs h.orph ?_
   have := h.aliveS v
   rw [hv] at this
   cases hx : sN.slots v with
